@@ -108,6 +108,11 @@ def replay_model(pid, ob, fn_result, search=False):
         return {"reproduced": False, "reason": f"replay error {e}"}
 
 
+def _norm_oid(oid):
+    import re
+    return re.sub(r"~\d+", "", re.sub(r"#\d+", "", oid))
+
+
 def main():
     ap = argparse.ArgumentParser()
     ap.add_argument("pid")
@@ -184,6 +189,9 @@ def main():
             seen[o["id"]] = o
     by_id = seen
     fn_by_name = {r["function"]: r for r in results}
+    # site ordinals shift when statements are added or moved in an edited function: an obligation is "the one that was locked"
+    # also when it is the same clause of the same kind of site (ordinals and path suffixes ignored)
+    locked_norm = {_norm_oid(x) for x in locked}
     for oid, o in sorted(by_id.items()):
         if o["status"] == "sat":
             violations.append({"kind": "obligation", "obligation": oid, "note": o.get("note", ""), "line": o.get("line"),
@@ -194,7 +202,7 @@ def main():
             fnr = fn_by_name.get(o["function"], {})
             changed = locked_hash.get(o["function"]) not in (None, fnr.get("source_hash"))
             why = f'{o["solver"]}: unknown {o.get("reason", "")} cvc5={o.get("cvc5", "-")}'
-            if oid in locked and changed:
+            if (oid in locked or _norm_oid(oid) in locked_norm) and changed:
                 # discharged on the pinned tree, the function's source has changed since, and the proof no longer
                 # goes through: reported as a violation without a failing input (the solver gave no model)
                 violations.append({"kind": "obligation", "obligation": oid, "note": o.get("note", ""), "line": o.get("line"),
